@@ -2,8 +2,9 @@
 # Runs the repository's own test-suite (guard off) and compares with the pinned stable-pass list.
 # usage: baseline.sh [logfile]
 LOG=${1:-/tmp/verif_baseline.log}
+mkdir -p /tmp/mut
 XML=$(mktemp /tmp/verif_junit_XXXXXX.xml)
-cd /repo && env -u PYSYNCOBJ_VERIF /venv/bin/python -m pytest -ra -q -p no:cacheprovider --timeout=900 --continue-on-collection-errors --junitxml=$XML > $LOG 2>&1
+cd /repo && flock /tmp/mut/test.lock env -u PYSYNCOBJ_VERIF /venv/bin/python -m pytest -ra -q -p no:cacheprovider --timeout=900 --continue-on-collection-errors --junitxml=$XML > $LOG 2>&1
 /venv/bin/python - "$XML" <<'PY'
 import sys, json, xml.etree.ElementTree as ET
 base = json.load(open('/root/.vp/BASELINE.json'))
